@@ -477,6 +477,13 @@ type qpRun struct {
 	outLog []string // frames seen in the current step (for the trace)
 
 	send *qsState // C20 send side (TestVerif_C20_send)
+
+	// C20 held-back phase (qpOpBulk): the application has written bulk data on
+	// bulkID; the conn's STREAM frames for it are summarised in the trace
+	bulk                  bool
+	bulkID                streamID
+	bulkFrames, bulkBytes int
+	bulkEnd               int64
 }
 
 func (r *qpRun) setViol(v *vs.Violation) {
@@ -710,6 +717,14 @@ func (r *qpRun) onFrame(space numberSpace, pn packetNumber, f debugFrame) {
 		if r.closed == nil {
 			r.closed = &qpClose{appCode: f.code, reason: f.reason}
 		}
+	case debugFrameStream:
+		if r.bulk && f.id == r.bulkID && len(f.data) > 0 {
+			// the conn's own bulk data: one summary line per step instead of one per frame
+			r.bulkFrames++
+			r.bulkBytes += len(f.data)
+			r.bulkEnd = max(r.bulkEnd, f.off+int64(len(f.data)))
+			return
+		}
 	case debugFramePathResponse:
 		r.pathResp[f.data]++
 		if !r.pathSent[f.data] {
@@ -723,6 +738,10 @@ func (r *qpRun) onFrame(space numberSpace, pn packetNumber, f debugFrame) {
 }
 
 func (r *qpRun) flushLog(label string) {
+	if r.bulkFrames > 0 {
+		r.outLog = append(r.outLog, fmt.Sprintf("%d STREAM frames of the application's bulk data on stream %d, %d bytes, up to offset %d", r.bulkFrames, r.bulkID, r.bulkBytes, r.bulkEnd))
+		r.bulkFrames, r.bulkBytes = 0, 0
+	}
 	if len(r.outLog) > 0 {
 		r.tr.Ev("%s -> %s", label, strings.Join(r.outLog, ", "))
 	} else {
@@ -930,6 +949,7 @@ const (
 	qpOpRead
 	qpOpAckAll
 	qpOpCloseRead
+	qpOpBulk // C20 held-back phase only (never drawn by weight): application bulk Write + Flush
 )
 
 // data modes
@@ -975,6 +995,7 @@ type qpOp struct {
 	far                 int
 	fin                 bool
 	code                uint64
+	hold                bool // C20 held-back phase: the fake peer sends no ACK before / as this operation
 }
 
 type qpSlot struct {
@@ -986,6 +1007,7 @@ type qpStreamPlan struct {
 	base  qpBase
 	slots []qpSlot
 	ops   []qpOp
+	held  bool // a held-back phase was spliced into ops (qpSpliceHeldBack)
 }
 
 func qpDrawLimit(c vs.Chooser, allowSpecial bool) int64 {
@@ -1110,7 +1132,95 @@ func qpDrawStreamPlan(rt *rapid.T, focus string) qpStreamPlan {
 		}
 		p.ops = append(p.ops, op)
 	}
+	if focus == "C20" && vs.Config() != "peer-closeread" && vs.Pct(c, 30) {
+		// (drawn last, and not in configuration peer-closeread, so that the draws of
+		// every other plan are what they were before this phase existed)
+		qpSpliceHeldBack(c, &p)
+	}
 	return p
+}
+
+// qpSpliceHeldBack inserts a "held-back" phase into a C20 plan: the conn cannot
+// send ack-eliciting packets (hence no MAX_DATA / MAX_STREAM_DATA) because its own
+// bulk data fills the congestion window and the fake peer withholds every ACK,
+// while the application goes on reading and the peer goes on probing the limits.
+// The limits that count are still only those in frames the conn has really sent.
+//
+//	fill:   1-10 in-order STREAM frames of the peer (mostly 1000 bytes, clamped to
+//	        what the conn advertised), before or after the bulk write
+//	bulk:   the application writes 1..200000 bytes (mostly 13000..40000, more than
+//	        the initial congestion window) on a bidirectional stream and flushes
+//	read:   the application reads the filled stream (or every stream) until it
+//	        would block
+//	probes: 1-2 STREAM / RESET_STREAM frames, mostly exactly at / one beyond / far
+//	        beyond the connection limit
+//	tail:   the next 0-8 operations of the plan, still without any ACK
+//
+// No clock advance happens in these jobs, so no PTO probe (which would bypass the
+// congestion window) is sent during the phase.
+func qpSpliceHeldBack(c vs.Chooser, p *qpStreamPlan) {
+	p.held = true
+	at := c.Intn(min(len(p.ops), 6) + 1)
+	rs := c.Intn(len(p.slots))
+	var fill, phase []qpOp
+	for i, k := 0, vs.Range(c, 1, 10); i < k; i++ {
+		op := qpOp{kind: qpOpData, s: rs, mode: qpDNext, n: 1000, hold: true}
+		if vs.Pct(c, 25) {
+			op.n = max(1, vs.SizeBiased(c, 1000, 1, 2))
+		}
+		if vs.Pct(c, 20) {
+			op.s = c.Intn(len(p.slots))
+		}
+		fill = append(fill, op)
+	}
+	bulk := qpOp{kind: qpOpBulk, s: c.Intn(len(p.slots) + 1), hold: true} // s == len(slots): a conn-initiated stream of its own
+	switch c.Intn(8) {
+	case 0, 1, 2, 3:
+		bulk.n = vs.Range(c, 13000, 40000)
+	case 4, 5:
+		bulk.n = vs.Range(c, 40001, 100000)
+	case 6:
+		bulk.n = vs.Range(c, 100001, 200000)
+	default:
+		bulk.n = vs.Range(c, 1, 12999) // may leave the congestion window open
+	}
+	if vs.Bool(c) {
+		phase = append(append(phase, fill...), bulk)
+	} else {
+		phase = append(append(phase, bulk), fill...)
+	}
+	if vs.Pct(c, 40) {
+		for i := range p.slots {
+			phase = append(phase, qpOp{kind: qpOpRead, s: i, n: 4096, hold: true})
+		}
+	} else {
+		phase = append(phase, qpOp{kind: qpOpRead, s: rs, n: 4096, hold: true})
+	}
+	for i, k := 0, vs.Range(c, 1, 2); i < k; i++ {
+		op := qpOp{s: rs, hold: true, a: c.Intn(1 << 16), far: vs.SizeBiased(c, 1<<20, 1, 1000)}
+		if vs.Pct(c, 40) {
+			op.s = c.Intn(len(p.slots))
+		}
+		if vs.Pct(c, 15) {
+			op.kind = qpOpReset
+			op.mode = vs.Pick(c, qpROverConn1, qpRAtConnLimit, qpROverFar, qpRAhead)
+			op.code = uint64(c.Intn(5))
+		} else {
+			op.kind = qpOpData
+			//                         next dup ovl gap atS S+1 Sfar atC C+1 Cfar
+			op.mode = qpWeighted(c, []int{1, 0, 0, 0, 1, 1, 0, 3, 5, 3})
+			op.n = vs.SizeBiased(c, 1000, 1, 2)
+		}
+		phase = append(phase, op)
+	}
+	tail := c.Intn(9)
+	ops := append([]qpOp{}, p.ops[:at]...)
+	ops = append(ops, phase...)
+	for i, op := range p.ops[at:] {
+		op.hold = i < tail
+		ops = append(ops, op)
+	}
+	p.ops = ops
 }
 
 // slotStream returns the model stream of a slot, opening local streams first.
@@ -1281,6 +1391,7 @@ func (r *qpRun) resolveReset(st *qpStream, op qpOp) int64 {
 // sendStreamFrame sends one STREAM frame and judges the reaction.
 func (r *qpRun) sendStreamFrame(st *qpStream, off int64, n int, fin bool, mode string) {
 	end := off + int64(n)
+	pend := r.unsentMaxData() // statistics only; read (and the conn's output drained) before the frame is classified
 	e := r.m.classify(st.id, end, fin, false)
 	// keep each check focused: frames that only break a property another job
 	// owns would end the run without testing anything here.
@@ -1291,6 +1402,7 @@ func (r *qpRun) sendStreamFrame(st *qpStream, off int64, n int, fin bool, mode s
 	wasKnownHigh, wasLimit, wasRoom, wasSum, wasMaxData := st.high, st.limit, r.connRoom(st), r.m.sumHigh, r.m.maxData
 	dup := st.sent.covers(off, end) && n > 0
 	f := debugFrameStream{id: st.id, off: off, data: qpData(st.id, off, n), fin: fin}
+	r.probeHeldBack(pend, end, wasRoom)
 	r.peerSend(f)
 	desc := fmt.Sprintf("peer: %v [%s] (stream %s: received %d, limit %d, final %d; conn: sum %d, MAX_DATA %d)", f, mode, st.kind, wasKnownHigh, wasLimit, st.final, wasSum, wasMaxData)
 	r.flushLog(desc + " expect " + e.String())
@@ -1316,6 +1428,7 @@ func (r *qpRun) sendStreamFrame(st *qpStream, off int64, n int, fin bool, mode s
 }
 
 func (r *qpRun) sendResetFrame(st *qpStream, fs int64, code uint64, mode string) {
+	pend := r.unsentMaxData()
 	e := r.m.classify(st.id, fs, true, false)
 	if (r.focus == "C20" && (e.final || e.limit) && !e.flow) || (r.focus == "C21" && (e.final || e.flow) && !e.limit) {
 		vs.G.Inc("gen.skipped_foreign_frame")
@@ -1323,6 +1436,7 @@ func (r *qpRun) sendResetFrame(st *qpStream, fs int64, code uint64, mode string)
 	}
 	wasHigh, wasLimit, wasRoom, wasSum, wasMaxData := st.high, st.limit, r.connRoom(st), r.m.sumHigh, r.m.maxData
 	f := debugFrameResetStream{id: st.id, code: code, finalSize: fs}
+	r.probeHeldBack(pend, fs, wasRoom)
 	r.peerSend(f)
 	desc := fmt.Sprintf("peer: %v [%s] (stream %s: received %d, limit %d, final %d; conn: sum %d, MAX_DATA %d)", f, mode, st.kind, wasHigh, wasLimit, st.final, wasSum, wasMaxData)
 	r.flushLog(desc + " expect " + e.String())
@@ -1409,10 +1523,18 @@ func (r *qpRun) runStreamOps(p qpStreamPlan) {
 		}
 		// keep the conn's congestion window and pacer out of the picture
 		if i%8 == 7 {
-			r.ackAll()
+			if op.hold {
+				r.noteAckWithheld()
+			} else {
+				r.ackAll()
+			}
 			if r.over() {
 				return
 			}
+		}
+		if op.kind == qpOpBulk {
+			r.bulkWrite(p, op)
+			continue
 		}
 		sl := p.slots[op.s]
 		st := r.slotStream(sl)
@@ -1431,6 +1553,10 @@ func (r *qpRun) runStreamOps(p qpStreamPlan) {
 		case qpOpRead:
 			r.readOp(st, op)
 		case qpOpAckAll:
+			if op.hold {
+				r.noteAckWithheld()
+				continue
+			}
 			r.ackAll()
 		case qpOpCloseRead:
 			if sl.kind == "local-bidi" || !st.referenced || st.closeReadHigh >= 0 {
@@ -1455,6 +1581,103 @@ func (r *qpRun) runStreamOps(p qpStreamPlan) {
 		if st := r.m.streams[sl.id]; st != nil && st.referenced && !r.over() {
 			r.readOp(st, qpOp{kind: qpOpRead, n: 4096})
 		}
+	}
+}
+
+func (r *qpRun) noteAckWithheld() {
+	if r.bulk {
+		vs.G.Inc("fault.ack_withheld_while_conn_has_bulk_data")
+	}
+}
+
+// bulkWrite (held-back phase of C20) makes the application write and flush op.n
+// bytes on a bidirectional stream: the slot's stream if the application can write
+// to it (conn-initiated, or peer-initiated and already delivered to the
+// application), otherwise a conn-initiated stream of its own. From here on the
+// conn's STREAM frames for that stream are summarised in the trace.
+func (r *qpRun) bulkWrite(p qpStreamPlan, op qpOp) {
+	var st *qpStream
+	if op.s < len(p.slots) {
+		switch sl := p.slots[op.s]; sl.kind {
+		case "local-bidi":
+			st = r.openLocal(sl.id.num())
+		case "peer-bidi":
+			if ps := r.m.streams[sl.id]; ps != nil && ps.referenced && !ps.forgotten && !ps.appClosedWrite && r.appStream(ps) != nil {
+				st = ps
+			}
+		}
+	}
+	if st == nil && !r.over() {
+		var k int64
+		for _, sl := range p.slots {
+			if sl.kind == "local-bidi" {
+				k++
+			}
+		}
+		st = r.openLocal(k)
+	}
+	if st == nil || st.app == nil || r.over() {
+		return
+	}
+	r.bulk, r.bulkID, r.bulkEnd = true, st.id, 0
+	var n int
+	var err error
+	if v := vs.Guard("C20", "write_panic", func() {
+		n, err = st.app.Write(make([]byte, op.n))
+		st.app.Flush()
+	}); v != nil {
+		r.setViol(v)
+		return
+	}
+	r.drain()
+	errs := "nil"
+	if err != nil {
+		errs = err.Error()
+	}
+	r.flushLog(fmt.Sprintf("app: bulk Write of %d bytes on stream %d (%s) = %d, %s; Flush; the fake peer withholds ACKs", op.n, st.id, st.kind, n, errs))
+	vs.G.Inc("probe.app_bulk_write")
+	if r.over() {
+		return
+	}
+	// white-box, statistics only: is the conn now unable to send ack-eliciting packets?
+	limited := false
+	r.tc.conn.runOnLoop(context.Background(), func(now time.Time, c *Conn) {
+		l, _ := c.loss.sendLimit(now)
+		limited = l != ccOK
+	})
+	r.drain()
+	if limited {
+		vs.G.Inc("probe.conn_send_blocked_after_bulk_write")
+	}
+}
+
+// unsentMaxData (white-box, statistics only - the oracle never sees it) is how far
+// the MAX_DATA value the conn wants to send is above the last one it has sent.
+// After quiescence this is non-zero only while the conn cannot send the frame.
+// Only looked at after a bulk write (held-back phase of C20).
+func (r *qpRun) unsentMaxData() (pend int64) {
+	if !r.bulk || r.over() {
+		return 0
+	}
+	r.tc.conn.runOnLoop(context.Background(), func(now time.Time, c *Conn) {
+		pend = c.streams.inflow.newLimit - c.streams.inflow.sentLimit
+	})
+	r.drain()
+	return pend
+}
+
+// probeHeldBack counts peer frames at / beyond the connection limit that arrive
+// while a MAX_DATA update is due (the application has read enough) but has not
+// appeared in the conn's output.
+func (r *qpRun) probeHeldBack(pend, end, room int64) {
+	if pend <= 0 {
+		return
+	}
+	if end >= room {
+		vs.G.Inc("probe.conn_limit_probe_while_max_data_held_back")
+	}
+	if end > room && end <= room+pend {
+		vs.G.Inc("probe.overshoot_within_unsent_max_data")
 	}
 }
 
@@ -1484,6 +1707,9 @@ func (r *qpRun) readOp(st *qpStream, op qpOp) {
 	r.flushLog(fmt.Sprintf("app: read stream %d with a %d-byte buffer: %d bytes in %d calls (pos %d), last err=%s", st.id, op.n, total, calls, st.readPos, errs))
 	if total > 0 {
 		vs.G.Inc("probe.app_read_bytes")
+		if r.unsentMaxData() > 0 {
+			vs.G.Inc("probe.max_data_update_held_back_after_read")
+		}
 	}
 	if r.over() {
 		return
@@ -1573,10 +1799,14 @@ func TestVerif_C20_peer(t *testing.T) {
 			r.registerProbes("probe.stream_limit_exceeded", "probe.stream_limit_plus_1", "probe.conn_limit_exceeded", "probe.conn_limit_plus_1",
 				"probe.exactly_at_stream_limit", "probe.exactly_at_conn_limit", "probe.duplicate_data_accepted", "probe.reset_exceeds_flow_limit",
 				"probe.max_data_seen", "probe.max_stream_data_seen", "probe.app_read_bytes", "fault.peer_exceeds_flow_limit", "fault.refused_FLOW_CONTROL_ERROR")
+			if vs.Config() != "peer-closeread" {
+				r.registerProbes("probe.app_bulk_write", "probe.conn_send_blocked_after_bulk_write", "probe.max_data_update_held_back_after_read",
+					"probe.conn_limit_probe_while_max_data_held_back", "probe.overshoot_within_unsent_max_data", "fault.ack_withheld_while_conn_has_bulk_data")
+			}
 			r.runStreamOps(p)
 		})
 		qpFinish(t, rt, "C20", tr, res, func() any {
-			return map[string]any{"config": p.base.String(), "streams": len(p.slots), "ops": len(p.ops), "trace_head": qpTraceHead(tr)}
+			return map[string]any{"config": p.base.String(), "streams": len(p.slots), "ops": len(p.ops), "held_back_phase": p.held, "trace_head": qpTraceHead(tr)}
 		})
 	})
 }
